@@ -704,6 +704,13 @@ impl<'a> Work<'a> {
         Ok(false)
     }
 
+    /// Verification hook: `create_parent_dirs` for the outputs of the `index`-th step of the graph.
+    #[cfg(n2_verif)]
+    pub fn verif_create_parent_dirs(&self, index: usize) -> anyhow::Result<()> {
+        let id = BuildId::from(index);
+        self.create_parent_dirs(self.graph.builds[id].outs())
+    }
+
     /// Create the parent directories of a given list of fileids.
     /// Used to create directories used for outputs.
     /// TODO: do this within the thread executing the subtask?
